@@ -112,6 +112,24 @@ func runC07Switch(r *Run, stratum string) *Violation {
 		c.setViolation("C07.switch_failed", "the move to the new replication id fails on a healthy target", "SetRunId(%s..) failed: %v", newID[:6], err)
 		c.viol.Property = "C07"
 	}
+	if c.viol == nil {
+		// the round goes on under the new id: the incremental sender stores a later position (run id, version and
+		// offset, in the database it works in - no modification time), then the tool is restarted
+		good2 := good + int64(1+g.Choose("progress", 5000))
+		fields := map[string]string{}
+		if h := c.srv.Get(holder, local); h != nil {
+			for k, v := range h.Hash {
+				fields[k] = string(v)
+			}
+		}
+		fields[newID+"_runid"], fields[newID+"_version"], fields[newID+"_offset"] = newID, "1", strconv.FormatInt(good2, 10)
+		c.srv.SetHash(holder, local, fields)
+		off, _, found, serr := c.nextStart(local, []string{newID, oldID})
+		if serr != nil || !found || off < good2 {
+			c.setViolation("C07.decrease", "the restart after a fail-over and further progress resumes from an earlier position", "position %d was stored for id %s..; after the move to id %s.. the sender stored %d under the new id; the next start reads position %d (found=%v, err=%v); state: %s", good, oldID[:6], newID[:6], good2, off, found, serr, describeKeyspace(c.srv))
+			c.viol.Property = "C07"
+		}
+	}
 	r.Evals = 1
 	for k := 0; k < n && k < 120 && c.viol == nil; k++ {
 		c.srv.RestoreDBs(initial)
